@@ -374,6 +374,24 @@ def run(check, an: Analysis):
                 whom = bool(told) and rules.value_text(
                     path, told[0][0], told[0][1].node.func) == \
                     'self.users[-1].proc.interrupt'
+                # what the victim is told: who took the slot, since when the victim held
+                # it, and which resource
+                details = False
+                if told and len(told[0][1].node.args) == 1:
+                    cause = rules.value_expr(path, told[0][0], told[0][1].node.args[0])
+                    if isinstance(cause, ast.Call) and \
+                            ast.unparse(cause.func).split('.')[-1] == 'Preempted':
+                        given = dict(zip(('by', 'usage_since', 'resource'),
+                                         (ast.unparse(a) for a in cause.args)))
+                        given.update({kw.arg: ast.unparse(kw.value) for kw in cause.keywords})
+                        details = given == {'by': '%s.proc' % ev,
+                                            'usage_since': 'self.users[-1].usage_since',
+                                            'resource': 'self'}
+                check.instance('Q', 'PreemptiveResource._do_put:tells-victim', details,
+                               told[0][1].where if told else event.where,
+                               'the interrupt carries Preempted(by=<the request\'s process>, '
+                               'usage_since=<when the victim was granted>, resource=self)',
+                               path=rules.path_lines(path, told[0][0] if told else index))
                 check.instance('Q', 'PreemptiveResource._do_put:evicts', last and full and
                                wants and better and whom, event.where,
                                'victim is the last (worst) user (%s); only when full (%s), '
